@@ -68,13 +68,15 @@ def Part.mkMolv (key index value : DatumSpec) (listCondition mapCondition condit
   let c ← containerCond condition value .value "value"
   pure { kind := .molv, cond := c, listCond := lc, mapCond := mc, label := label }
 
-/-- coercion of a primitive path part in `DataPath.__init__`: str / float → `MapValue(i)`,
-    int (and bool) → `MapOrListValue(key=i, index=i)`, anything else `TypeError` -/
+/-- `DataPath.__init__` on a part that is not a part object: the first entry of the generated
+    `isinstance` chain (`primCoercions`) one of whose types the value is an instance of (bool ⊂ int) -/
 def Part.ofPrim (v : PyVal) : Except Exc Part :=
-  match v with
-  | .str _ | .float _ => Part.mkMap (.val v) .none none none
-  | .int _ | .bool _ => Part.mkMolv (.val v) (.val v) .none none none none none
-  | _ => .error .typeError
+  match primCoercions.find? (fun e => e.1.any (PyVal.instOf v)) with
+  | some (_, "MapValue") => Part.mkMap (.val v) .none none none
+  | some (_, "MapOrListValue") => Part.mkMolv (.val v) (.val v) .none none none none none
+  | some (_, "ListValue") => Part.mkList (.val v) .none none none
+  | some _ => .error .unmodelled
+  | none => .error primCoercionElse
 
 /-- `part.filter(data)` on a raw node -/
 def Part.filter (p : Part) (node : PyVal) : Except Exc (FD × DataV) := do
